@@ -581,13 +581,18 @@ def rule_py_headers(out):
                 if isinstance(t, ast.BoolOp):  # expected_schema and self._schema != expected_schema
                     cmp = t.values[-1]
                 neq = isinstance(cmp, ast.Compare) and len(cmp.ops) == 1 and isinstance(cmp.ops[0], ast.NotEq)
+                if isinstance(t, ast.BoolOp):
+                    # the only accepted extra condition: "an expected schema was given" (None/"" = caller opted out)
+                    extra = t.values[:-1]
+                    names = {n.id for e in extra for n in ast.walk(e) if isinstance(n, ast.Name)} | {n.attr for e in extra for n in ast.walk(e) if isinstance(n, ast.Attribute)}
+                    neq = neq and isinstance(t.op, ast.And) and len(extra) == 1 and names <= {"expected_schema"}
                 checks.append((which, neq, st))
         order = [c[0] for c in checks]
         out.check(order == ["magic", "version", "schema"], rid, "BinaryProtocolReader.__init__/checks in order", pos(rel, r),
                   "magic, version, schema are each checked with a raising branch, in stream order", "header checks found: %s (expected magic, version, schema)" % order)
         for which, neq, st in checks:
             out.check(neq, rid, "BinaryProtocolReader.__init__/%s compared with !=" % which, pos(rel, st), "mismatch raises",
-                      "the %s test is not an inequality test: some foreign values are accepted" % which)
+                      "the %s test is not a plain inequality test (optionally behind `expected_schema and`): some foreign values are accepted" % which)
     tree2, rel2 = parse_py(out, "_ndjson.py")
     cl2 = classes(tree2)
     r2 = methods(cl2["NDJsonProtocolReader"]).get("__init__") if "NDJsonProtocolReader" in cl2 else None
@@ -833,6 +838,19 @@ def rule_py_wire_table(out):
             got = wire_class_of(cl[tgt.func.id], cl) if tgt is not None and isinstance(tgt, ast.Call) and isinstance(tgt.func, ast.Name) and tgt.func.id in cl else None
             hops += 1
         table[prim] = got
+        if got in ("svarint", "uvarint") and v.func.id in cl:
+            # all four entry points of the class (python value / numpy value, write / read) use the same varint family
+            fam = "signed" if got == "svarint" else "unsigned"
+            for mname, m in sorted(methods(cl[v.func.id]).items()):
+                if mname not in ("write", "write_numpy", "read", "read_numpy"):
+                    continue
+                used = sorted({n.func.attr for n in ast.walk(m) if isinstance(n, ast.Call) and isinstance(n.func, ast.Attribute)
+                               and isinstance(n.func.value, ast.Name) and n.func.value.id == "stream" and n.func.attr.endswith("_varint")})
+                if not used:
+                    continue
+                want_m = ("write_%s_varint" if mname.startswith("write") else "read_%s_varint") % fam
+                out.check(used == [want_m], rid, "primitive/%s/%s" % (prim, mname), pos(rel, m), "uses stream.%s" % want_m,
+                          "%s.%s uses %s but the class writes %s varints: values written through one entry point are misread through the other" % (v.func.id, mname, ", ".join(used), fam))
         if got is None:
             out.undecided(rid, "primitive/" + prim, pos(rel, cl[v.func.id]), "cannot determine how %s writes its value" % v.func.id)
         else:
